@@ -1,6 +1,6 @@
 SPECIFICATION Spec
 CONSTANTS
-  FIXED = {"F3","F4","F5","F6","F8"}
+  FIXED = {"F3","F4","F5","F6","F8","F18"}
   MaxCalls = 5
   MaxIterDom = {0, 2}
   ExtDom = {0, 3}
@@ -8,4 +8,4 @@ CONSTANTS
   MiscDom = {0}
   Settable = {"ext", "fmg", "L", "take", "caches", "maxIter", "absOn", "relOn", "exact"}
   GenHist = FALSE
-INVARIANTS ModeAgrees StartIsData StatsFresh StatsDefined HistoriesOwn StopTruth RejectOrRun
+INVARIANTS ModeAgrees StartIsData StatsFresh StatsDefined HistoriesOwn StopTruth RejectOrRun TimingsOwn
